@@ -13,8 +13,8 @@ PQ_GEN = "prqlc/prqlc/src/sql/pq/gen_query.rs"
 LIB = "prqlc/prqlc/src/lib.rs"
 DIALECT = "prqlc/prqlc/src/sql/dialect.rs"
 
-LABELS = ["DS1a", "DS1b", "DS1c", "DS1d", "FS1", "FS2", "FS3", "FS4", "TD1", "CS1"]
-FUNCTIONS = ["dialect_slice", "target_from_str", "target_default", "compile_slice"]
+LABELS = ["DS1a", "DS1b", "DS1c", "DS1d", "FS1", "FS2", "FS3", "FS4", "TD1", "CS1", "QD1"]
+FUNCTIONS = ["find_query_def", "dialect_slice", "target_from_str", "target_default", "compile_slice"]
 RLIMIT = 60
 
 ASSUMED = [
@@ -29,12 +29,15 @@ ASSUMED = [
     {"what": "error construction (Error::new(Reason::NotFound{..}) + format!) is opaque_error()", "count": 1},
     {"what": "derived PartialEq on the field-less enum Dialect is equality of variants (PartialEqSpecImpl states `obeys`)", "count": 0},
     {"what": "gen_query::translate_query is external: its result is the uninterpreted translated_query(query, dialect)", "count": 2},
+    {"what": "find_query_def: Module::get(ident) is the uninterpreted decl_at(); enum_as_inner as_query_def() gives the QueryDef of a QueryDef declaration; Ident is the real "
+             "struct {path, name}; Vec<String>::clone and str::to_string are the identity", "count": 7},
 ]
 TRUSTED = [
     "oracle (C18): option, then header, then generic; unknown target name is an error",
     "the clause 'never changes which programs the resolver accepts' is argued from signatures only (semantic::resolve_and_lower takes "
     "no Options) and is NOT checked",
     "the slice drops the rest of compile_query",
+    "oracle (C18, multi-file projects): the header that counts for a pipeline is the one of the module (file) that declares it - the declaration `<path of main>._query_def`",
 ]
 
 PRELUDE = r"""
@@ -143,12 +146,11 @@ def build(X):
                ".map(|s: &String| -> (r: Result<Target, Error>) "
                "ensures exists|t: &str| t@ == s@ && call_ensures(target_from_str, (t,), r) { target_from_str(s.as_str()) })",
                why="closure given the contract of the function it calls; &String -> &str deref made explicit")
-    parts = sl.text.split(".unwrap_or_default()")
-    if len(parts) != 3:
-        raise ExtractionError("dialect_slice: expected two unwrap_or_default() calls (Option<Target>, Option<Dialect>), found %d" % (len(parts) - 1))
-    sl.text = parts[0] + ".unwrap_or(target_default())" + parts[1] + ".unwrap_or(sql::dialect_default())" + parts[2]
-    sl.rewrites.append({"rule": "R5", "what": "1st unwrap_or_default() (Option<Target>) -> unwrap_or(target_default()); 2nd (Option<Dialect>) -> "
-                        "unwrap_or(sql::dialect_default()) (#[default] Generic)"})
+    # Option<Target>::unwrap_or_default (directly after the `.transpose()?` of the header lookup) vs Option<Dialect>::unwrap_or_default (every other one)
+    sl.rewrite_re("R5", r"(\.transpose\(\)\?\s*)\.unwrap_or_default\(\)", r"\1.unwrap_or(target_default())", count=1,
+                  why="Option<Target>::unwrap_or_default -> unwrap_or(target_default()) (the real, verified Default impl)")
+    sl.rewrite_re("R5", r"\.unwrap_or_default\(\)", ".unwrap_or(sql::dialect_default())", count=None,
+                  why="Option<Dialect>::unwrap_or_default -> unwrap_or(sql::dialect_default()) (#[default] Generic)")
     sl.text = ("pub fn dialect_slice(dialect: Option<sql::Dialect>, query: RelationalQuery) -> (res: Result<sql::Dialect, Error>)\n"
                "    ensures\n"
                "        // an explicit option wins, whatever the header says\n"
@@ -189,7 +191,37 @@ proof fn lemma_concat_inj()
                "{\n    " + cs.text + "\n    Ok(sql_ast)\n}\n")
     cs.rewrites.append({"rule": "slice", "what": "first two statements of sql::compile wrapped as fn compile_slice(query, options); "
                         "Options is reduced to its `target` field; translate_query is external (uninterpreted result)"})
-    body = sql_mod + target.text + "\n" + ORACLE + lemma + tdef.text + "\n" + fs.text + "\n" + sl.text + "\n" + cs.text
+    # ---- which header: RootModule::find_query_def
+    fq = X.fn("prqlc/prqlc/src/semantic/module.rs", "find_query_def").pub_all()
+    fq.rewrite_re("R5", r"\bmain\.path\.clone\(\)", "clone_path(&main.path)", count=None, why="Vec<String>::clone")
+    fq.rewrite_re("R5", r"\bNS_QUERY_DEF\.to_string\(\)", "ns_query_def()", count=None, why="constant name of the header declaration")
+    fq.ret_name("r")
+    fq.contract("""
+        ensures
+            // C18: the header of the module that declares `main` - looked up at exactly <path of main>._query_def - and no other
+            r == qdef_of(decl_at(self.module, Ident { path: main.path, name: ns_query_def_spec() })), // @QD1
+    """)
+    qd = (r"""
+pub struct Ident { pub path: Vec<String>, pub name: String }
+pub struct QueryDef2 { pub _p: OpaqueT }
+pub enum DeclKind2 { QueryDef(QueryDef2), Other(OpaqueT) }
+pub struct Decl2 { pub kind: DeclKind2 }
+impl DeclKind2 {
+    #[verifier::external_body] pub fn as_query_def(&self) -> (r: Option<&QueryDef2>) ensures r == (match self { DeclKind2::QueryDef(q) => Some(q), _ => None::<&QueryDef2> }), { unimplemented!() }
+}
+#[verifier::external_body] pub struct Module2 { _p: u8 }
+pub uninterp spec fn decl_at(m: Module2, i: Ident) -> Option<&'static Decl2>;
+impl Module2 {
+    #[verifier::external_body] pub fn get(&self, i: &Ident) -> (r: Option<&Decl2>) ensures r == decl_at(*self, *i), { unimplemented!() }
+}
+pub open spec fn qdef_of(d: Option<&Decl2>) -> Option<&QueryDef2> { match d { Some(d) => (match &d.kind { DeclKind2::QueryDef(q) => Some(q), _ => None::<&QueryDef2> }), None => None::<&QueryDef2> } }
+pub uninterp spec fn ns_query_def_spec() -> String;
+#[verifier::external_body] pub fn ns_query_def() -> (r: String) ensures r == ns_query_def_spec(), { unimplemented!() }
+#[verifier::external_body] pub fn clone_path(p: &Vec<String>) -> (r: Vec<String>) ensures r == *p, { unimplemented!() }
+pub struct RootModule { pub module: Module2 }
+impl RootModule {
+""" + fq.text.replace("Option<&QueryDef>", "Option<&QueryDef2>") + "\n}\n")
+    body = sql_mod + target.text + "\n" + ORACLE + lemma + qd + tdef.text + "\n" + fs.text + "\n" + sl.text + "\n" + cs.text
     return PRELUDE + body + "\n} // verus!\nfn main() {}\n"
 
 
@@ -224,6 +256,28 @@ def sweep():
             if not (ok3 and both == by_opt):
                 rec("DS1a", "option %s, header %s" % (d, e), True, by_opt, both)
         rec("DS1a", "option %s against every other header" % d, False, "", "")
+    # multi-file project: the header that counts is the one of the file that declares the pipeline
+    import tempfile, shutil, os
+    w = tempfile.mkdtemp(prefix="verif_proj_")
+    try:
+        os.mkdir(os.path.join(w, "proj"))
+        open(os.path.join(w, "proj", "Project.prql"), "w").write("prql target:sql.sqlite\n\nfrom invoices\ntake 5\n")
+        open(os.path.join(w, "proj", "reports.prql"), "w").write("prql target:sql.mssql\n\n" + _PROG)
+        env = dict(os.environ, RUST_BACKTRACE="0", NO_COLOR="1")
+        run = lambda args: subprocess.run([replaylib.prqlc_bin(), "compile", "--hide-signature-comment"] + args, capture_output=True, text=True, env=env)
+        by_hdr = run([os.path.join(w, "proj"), "-", "reports.main"])
+        by_opt = run(["-t", "sql.mssql", os.path.join(w, "proj"), "-", "reports.main"])
+        rec("QD1", "project {Project.prql: target sql.sqlite; reports.prql: target sql.mssql}, compile reports.main with and without -t sql.mssql",
+            not (by_hdr.returncode == 0 and by_opt.returncode == 0 and by_hdr.stdout == by_opt.stdout), by_opt.stdout, by_hdr.stdout + by_hdr.stderr[:200])
+    finally:
+        shutil.rmtree(w, ignore_errors=True)
     ok4, bad = replaylib.compile_prql("prql target:sql.nosuchdialect\n" + _PROG, None)
     rec("DS1d", "header sql.nosuchdialect, no option", ok4 or bad.startswith("PANIC"), "an error", bad)
     return out
+
+
+def replay(failure):
+    for r in sweep():
+        if r["failing"]:
+            return r
+    return {"failing": False}
